@@ -40,6 +40,18 @@ Resp(u, meth, st)      == [side |-> "resp", url |-> u, method |-> meth, hdr |-> 
 TxnsA == {Req(u, "GET", {}, {}) : u \in UrlsA}
 
 -------------------------------------------------------------------------------
+\* D  deeper patterns: up to 3 segments over one literal a and the parameters, optional trailing wildcard;
+\*    URLs up to 4 segments over a and the foreign literal c
+RECURSIVE PathsOver(_, _)
+PathsOver(n, L) == IF n = 0 THEN {<<>>}
+                   ELSE {Append(s, e) : s \in PathsOver(n - 1, L), e \in L \cup {ParamSeg(PN[n])}}
+PatternsD == {Mk(HostH, s) : s \in UNION {PathsOver(k, {"a"}) : k \in 0..3}}
+        \cup {Mk(HostH, Append(s, WildSeg)) : s \in UNION {PathsOver(k, {"a"}) : k \in 0..2}}
+FlowsD == {Plain(p, "user") : p \in PatternsD}
+UrlsD  == UrlsOver({HostH}, {"a", "c"}, 4)
+TxnsD  == {Req(u, "GET", {}, {}) : u \in UrlsD}
+
+-------------------------------------------------------------------------------
 PatternsB == {Mk(HostH, <<"a">>), Mk(HostH, <<"a", WildSeg>>), Mk(HostH, <<ParamSeg("p")>>)}
 
 MethodSets == {{}, {"GET"}, {"GET", "POST"}}
@@ -124,5 +136,5 @@ FastAgrees(Ps, Us) ==
         /\ mi.loose = Matches(p, u) /\ mi.strict = MatchesStrict(p, u)
         /\ \A i \in 1..NParts(p) : IsParamF(Parts(p)[i].v) = IsParam(Parts(p)[i].v)
                                    /\ IsLitF(Parts(p)[i].v) = IsLit(Parts(p)[i].v)
-ASSUME FastAgrees(PatternsA \cup PatternsB \cup PatternsC, UrlsA \cup UrlsB \cup UrlsC)
+ASSUME FastAgrees(PatternsA \cup PatternsB \cup PatternsC \cup PatternsD, UrlsA \cup UrlsB \cup UrlsC \cup UrlsD)
 =============================================================================
